@@ -66,30 +66,38 @@ def message_ok(inp, im):
 
 
 def width_stream(ctx):
-    """deeply nested unit rules: 16 tokens per rune; inputs that fit uint8 / uint16 while the token count does not"""
-    rules = "S <- A1* !.\n" + "".join("A%d <- A%d\n" % (i, i + 1) for i in range(1, 16)) + "A16 <- 'a' / 'b'\n"
-    text = "package parser\n\ntype Parser Peg {\n T []string\n N int\n}\n" + rules + "\n"
-    bd = C.build_dir()
-    bt = B.Batch(bd, "width", [dict(id="w", text=text, text_noast=text)], ["d"], strict=False).generate().build()
+    """deeply nested unit rules: 16 tokens per rune; inputs that fit uint8 / uint16 while the token count does not.
+    Two grammars: a repetition that never backtracks, and an ordered choice whose second alternative re-enters the
+    repetition at offset 0 after the first has failed at the very end - every rule call of the second pass is a memo
+    hit that replays tokens recorded beyond token index 65535 (memoisation x width)."""
+    chain = "".join("A%d <- A%d\n" % (i, i + 1) for i in range(1, 16)) + "A16 <- 'a' / 'b'\n"
+    hdr = "package parser\n\ntype Parser Peg {\n T []string\n N int\n}\n"
+    grammars = [("w", hdr + "S <- A1* !.\n" + chain + "\n",
+                 [(["ab" * 5, "a" * 20, "ab" * 30 + "c", "b" * 100], ["uint8", "uint16", "uint32", "uint64", "uint"]),
+                  (["a" * 4100, "ab" * 2100 + "c"], ["uint16", "uint32", "uint64"])]),
+                ("wb", hdr + "S <- A1* 'x' !. / A1* 'y' !.\n" + chain + "\n",
+                 [(["ab" * 5 + "y", "a" * 20 + "x", "ab" * 30 + "c", "b" * 100 + "y"], ["uint8", "uint16", "uint32", "uint64", "uint"]),
+                  (["a" * 4100 + "y", "ab" * 2100 + "cy", "ba" * 2200 + "y"], ["uint16", "uint32", "uint64"])])]
     out = []
-    try:
-        plans = [(["ab" * 5, "a" * 20, "ab" * 30 + "c", "b" * 100], ["uint8", "uint16", "uint32", "uint64", "uint"]),
-                 (["a" * 4100, "ab" * 2100 + "c"], ["uint16", "uint32", "uint64"])]
-        for inputs, widths in plans:
-            res = {}
-            for wd in widths:
-                r = bt.run_impl([("c", ("w", "d"), -1, True, -1, wd, inputs)])
-                res[wd] = [key_fields(B.parse_obs(x)) for x in (r.get("c") or [])]
-            ref = res[widths[-1]]
-            for wd in widths[:-1]:
-                if res[wd] != ref:
-                    k = next((i for i, (a, b) in enumerate(zip(res[wd], ref)) if a != b), 0)
-                    got = res[wd][k] if k < len(res[wd]) else ("missing",)
-                    out.append(("instantiated with %s the parser gives %s on an input of %d runes, with %s it gives %s" % (
-                        wd, str(got[:2])[:120], len(inputs[k]) if k < len(inputs) else -1, widths[-1], str(ref[k][:2])[:80] if k < len(ref) else "?"),
-                        {"grammar": text, "options": B.OPTSETS["d"], "inputs": inputs[:k + 1], "width": wd, "reference_width": widths[-1]}))
-    finally:
-        bt.cleanup()
+    for gid, text, plans in grammars:
+        bd = C.build_dir()
+        bt = B.Batch(bd, "width" + gid, [dict(id=gid, text=text, text_noast=text)], ["d"], strict=False).generate().build()
+        try:
+            for inputs, widths in plans:
+                res = {}
+                for wd in widths:
+                    r = bt.run_impl([("c", (gid, "d"), -1, True, -1, wd, inputs)])
+                    res[wd] = [key_fields(B.parse_obs(x)) for x in (r.get("c") or [])]
+                ref = res[widths[-1]]
+                for wd in widths[:-1]:
+                    if res[wd] != ref:
+                        k = next((i for i, (a, b) in enumerate(zip(res[wd], ref)) if a != b), 0)
+                        got = res[wd][k] if k < len(res[wd]) else ("missing",)
+                        out.append(("instantiated with %s the parser gives %s on an input of %d runes, with %s it gives %s" % (
+                            wd, str(got[:2])[:120], len(inputs[k]) if k < len(inputs) else -1, widths[-1], str(ref[k][:2])[:80] if k < len(ref) else "?"),
+                            {"grammar": text, "options": B.OPTSETS["d"], "inputs": inputs[:k + 1], "width": wd, "reference_width": widths[-1]}))
+        finally:
+            bt.cleanup()
     return out
 
 
